@@ -30,7 +30,7 @@ def hook_available():
         return False
 
 
-def write_ws(root, name, chunks, derive):
+def write_ws(root, name, chunks, derive, nonprimary=False):
     """a workspace of library crates; chunks: list of lists of (case_id, lines). returns {crate: [(id, a, b)]}"""
     ws = os.path.join(root, name)
     if os.path.exists(ws):
@@ -59,8 +59,17 @@ def write_ws(root, name, chunks, derive):
             sp.append((cid, a, len(src)))
         open(os.path.join(ws, cn, "src", "lib.rs"), "w").write("\n".join(src) + "\n")
         spans[cn] = sp
+    if nonprimary:
+        # the case crates are DEPENDENCIES of the only member (cargo builds them as non-primary packages: no
+        # CARGO_PRIMARY_PACKAGE, lints capped) -- what the derive accepts must not depend on that
+        os.makedirs(os.path.join(ws, "user", "src"))
+        open(os.path.join(ws, "user", "Cargo.toml"), "w").write(
+            "[package]\nname = \"user\"\nversion = \"0.0.0\"\nedition = \"2021\"\n[dependencies]\n"
+            + "".join('%s = { path = "../%s" }\n' % (m, m) for m in members))
+        open(os.path.join(ws, "user", "src", "lib.rs"), "w").write("\n")
     open(os.path.join(ws, "Cargo.toml"), "w").write(
-        "[workspace]\nresolver = \"2\"\nmembers = [" + ", ".join(f'"{m}"' for m in members) + "]\n"
+        "[workspace]\nresolver = \"2\"\nmembers = [" + (", ".join(f'"{m}"' for m in members) if not nonprimary else '"user"') + "]\n"
+        + ("exclude = [" + ", ".join(f'"{m}"' for m in members) + "]\n" if nonprimary else "") +
         "[profile.dev]\ndebug = false\nincremental = false\nopt-level = 0\n[profile.dev.build-override]\nopt-level = 1\ndebug = false\n"
         # the optimised pass: the DERIVE is what matters (a proc-macro built for a release build has no overflow checks)
         "[profile.release]\ndebug = false\nincremental = false\nopt-level = 0\n")
@@ -70,13 +79,14 @@ def write_ws(root, name, chunks, derive):
     return ws, spans
 
 
-def peel(ws, spans, what, trace_env=None, release=False):
+def peel(ws, spans, what, trace_env=None, release=False, dep=False):
     """build; every case with an error is 'rejected' and removed; repeat until the rest builds.
     returns {case_id: first error message}"""
     rejected = {}
     for rnd in range(12):
         t0 = time.time()
-        rc, msgs, err = run_rt.cargo_json(ws, ["--workspace", "--lib"] + (["--release"] if release else []), extra_env=trace_env if rnd == 0 else None)
+        rc, msgs, err = run_rt.cargo_json(ws, (["--workspace", "--lib"] if not dep else ["-p", "user", "--lib"]) + (["--release"] if release else []),
+                                          extra_env=trace_env if rnd == 0 else None)
         errs = run_rt.errors_of(msgs)
         log(f"{what} round {rnd}: rc={rc} errors={len(errs)} {time.time() - t0:.1f}s")
         if rc == 0:
@@ -182,7 +192,24 @@ def compute(tier, seed):
         if c["id"] - 1000000 in ctl:
             ctl[c["id"]] = ctl[c["id"] - 1000000]
     log(f"verdict[{tier}]: {len(relcases)} of the cases repeated with an optimised derive")
-    allcases = allcases + relcases
+    # ... and from crates that are dependencies of the crate being built (non-primary packages): a sample of every class
+    depcases = []
+    for p_ in PROPS:
+        cs = [c for c in allcases if c["prop"] == p_ and c["src"]["count"] == 0]
+        k = max(1, -(-len(cs) // (400 if tier == "quick" else 2000)))
+        depcases += [dict(c, id=c["id"] + 2000000, profile="dependency", note=c["note"] + " [in a dependency of the crate being built]") for c in cs[::k]]
+    chunks_p = [[] for _ in range(NCRATES)]
+    for i, c in enumerate(depcases):
+        chunks_p[i % NCRATES].append((c["id"], render_verdict.render(c, c["_repr"], derive=True)))
+    wsp, spp = write_ws(root, "vp", chunks_p, True, nonprimary=True)
+    rejp = peel(wsp, spp, "derive build (dependency)", dep=True) if depcases else {}
+    for c in depcases:
+        if c["id"] in rejp:
+            rej[c["id"]] = rejp[c["id"]]
+        if c["id"] - 2000000 in ctl:
+            ctl[c["id"]] = ctl[c["id"] - 2000000]
+    log(f"verdict[{tier}]: {len(depcases)} of the cases repeated in non-primary packages")
+    allcases = allcases + relcases + depcases
     drift = pipeline_drift(ptrace)
     trace = os.path.join(root, "verdict.ndjson")
     shards, n, k = [], 0, 0
